@@ -944,6 +944,49 @@ def f_hashability():
     return out, hash(_DcFrozen(3)) == hash(_DcFrozen(3)), len({_DcFrozen(1), _DcFrozen(1)})
 
 
+@functools.singledispatch
+def _kind(x, extra=0):
+    return ('other', type(x).__name__, extra)
+
+
+@_kind.register(bool)
+def _(x, extra=0):
+    return ('bool', x, extra)
+
+
+@_kind.register(int)
+def _(x, extra=0):
+    return ('int', x + extra)
+
+
+@_kind.register
+def _(x: str, extra=0):
+    return ('str', x.upper())
+
+
+@_kind.register(bytes)
+@_kind.register(bytearray)
+def _(x, extra=0):
+    return ('bytes-like', len(x))
+
+
+class _Base:
+    pass
+
+
+class _Derived(_Base):
+    pass
+
+
+@_kind.register(_Base)
+def _(x, extra=0):
+    return ('base-or-derived', type(x).__name__)
+
+
+def f_singledispatch():
+    return [_kind(v) for v in (True, 5, 'ab', b'xy', bytearray(b'z'), 2.5, None, [1], _Base(), _Derived())], _kind(7, extra=3), _kind(7, 1)
+
+
 def f_str_bits():
     s = bin(0b101101)[2:]
     return s, s.zfill(8), int(s[::-1], 2), s.count('1'), s.rfind('1'), s[:3] + '0' * 2, '{:08b}'.format(5), f'{5:08b}'[-3:], ''.join('1' if c == '0' else '0' for c in s)
